@@ -55,6 +55,7 @@ def run(prog, run):
     r5(prog, run)
     r6(prog, run)
     r7(prog, run)
+    r8(prog, run)
 
 
 def r1(prog, run):
@@ -434,3 +435,37 @@ def r7(prog, run):
             run.violation(rid, 'QXmppOutgoingClient::handleElement#uncounted:%s' % cn.split('::')[-2], he.loc(i),
                           '%s can consume a received stanza that never reached StreamAckManager::handleStanza: the h reported in <a/> and <resume/> falls behind'
                           % cn.split('::', 1)[-1])
+
+
+def r8(prog, run):
+    rid = run.rule('C09.R8', 'every counter of the acknowledgement manager restarts with a fresh stream-management session: each integer member that is modified '
+                             'outside enableStreamManagement is zeroed in its reset branch (a counter that survives makes the new session ignore or mis-number acks)', floor=2)
+    rec = prog.record(SAM)
+    en = prog.fn(SAM + '::enableStreamManagement')
+    ev = cfgx.Evaluator(en, {}, custom=lambda f, nid, st: (True,) if f.nodes[nid]['k'] == 'var' and f.nodes[nid].get('pidx') == 0 else None)
+    reach = cfgx.reachable_blocks(en, lambda f, c, st: ev.ev(c, st))
+    zeroed = set()
+    for i, n in en.all_nodes('assign'):
+        l = en.nodes[en.skip(n['l'])]
+        if l['k'] == 'mem' and en.const_value(n['r']) == ('int', 0) and en.pos(i) and en.pos(i)[0] in reach:
+            zeroed.add(l['f'])
+    n_fields = 0
+    for fl in rec['fields']:
+        tc = fl.get('tc') or ''
+        if not tc.startswith('int'):
+            continue
+        q = fl.get('qname') or (SAM + '::' + fl['name'])
+        writers = [(f, i) for f, i, k, h in field_uses(prog, q) if k in ('write', 'addr') and h != 'constructor initialiser' and top_function(prog, f).qname != SAM + '::enableStreamManagement']
+        if not writers:
+            continue
+        n_fields += 1
+        run.instance(rid)
+        if q in zeroed:
+            run.ok(rid, en.loc(), '%s restarts at 0 with a fresh session' % fl['name'])
+        else:
+            f, i = writers[0]
+            run.violation(rid, 'StreamAckManager::%s#survives-new-session' % fl['name'], f.loc(i),
+                          '%s is updated in %s but not reset when a fresh stream-management session restarts the numbering: acks of the new session are judged '
+                          'against a value of the old one' % (fl['name'], top_function(prog, f).qname.split('::')[-1]))
+    if n_fields < 2:
+        raise AnalysisBroken('C09.R8: counters of StreamAckManager not found')
